@@ -155,6 +155,8 @@ def render(prog, indent=0, out=None, pos=None):
                 # a statement that spans two source lines: only a block comment can carry the line break
                 head, rest = text.split(" ", 1)
                 out.append(pad + head + " /* operand on the")
+                if st["split"] == 3:      # ... or three: a line in the middle that neither begins nor ends the statement
+                    out.append("")
                 out.append(pad + "   next line */ " + rest)
             else:
                 out.append(pad + text)
